@@ -129,7 +129,8 @@ def gen(ctx, rng):
     case['c'] = c.tolist()
     case['dc'] = [rng.uniform(-1, 1) for _ in range(num)]
     case['nxy'] = (case['m'] + rng.randint(2, 4), case['n'] + rng.randint(2, 4))
-    case['table'] = rng.random() < 0.3
+    case['table'] = rng.random() < 0.45
+    case['taper'] = case['table'] and rng.random() < 0.6      # non-uniform per-point laminate table
     case['amp_in_h'] = amp / h
     return case
 
@@ -142,6 +143,9 @@ def run_case(ctx, case, ir, do_v=True):
     nx, ny = case['nxy']
     Fm = np.array(p.F)
     Ftab = np.tile(Fm, (nx, ny, 1, 1)) if case['table'] else None
+    if case.get('taper'):
+        gx, gy = np.meshgrid(np.linspace(0, 1, nx), np.linspace(0, 1, ny), indexing='ij')
+        Ftab = np.ascontiguousarray(Ftab * (1. + 0.4 * gx - 0.25 * gy * gx)[:, :, None, None])
     kw = dict(nx=nx, ny=ny, Fnxny=Ftab, silent=True)
     fint = lambda cc: np.array(pc.quiet(p.calc_fint, np.ascontiguousarray(cc), **kw))
     kT = pc.quiet(p.calc_kT, c=c, **kw).toarray()
@@ -162,7 +166,7 @@ def run_case(ctx, case, ir, do_v=True):
             k = int(np.abs(deriv - want).argmax())
             bad = ('kT.dc differs from the exact derivative of the cubic internal force along dc: rel %.3e at dof %d '
                    '(kT.dc %.6e, d fint %.6e)' % (np.abs(deriv - want).max() / sc, k, want[k], deriv[k]))
-    if bad is None:
+    if bad is None and not case.get('taper'):
         k0 = pc.quiet(p.calc_k0, silent=True).toarray()
         kT0 = pc.quiet(p.calc_kT, c=np.zeros_like(c), **kw).toarray()
         if pc.rel_diff(k0, kT0) > 1e-8:
